@@ -342,6 +342,17 @@ func Discrepancy(t TB, c interface{}, sig string, format string, args ...any) bo
 		return false
 	}
 	msg := fmt.Sprintf(format, args...)
+	if os.Getenv("VERIF_SURVEY") != "" {
+		// development aid: list every distinct signature instead of stopping at the first
+		st.mu.Lock()
+		first := st.Known["survey:"+sig] == 0
+		st.Known["survey:"+sig]++
+		st.mu.Unlock()
+		if first {
+			fmt.Printf("SURVEY sig=%s :: %s\n", sig, msg)
+		}
+		return false
+	}
 	b, err := json.Marshal(c)
 	if err != nil {
 		b, _ = json.Marshal(fmt.Sprintf("%#v", c))
@@ -613,5 +624,35 @@ func Current(t Named, c interface{}) {
 	}
 	cf := CaseFile{Property: st.Meta.Property, Test: baseName(t), Sig: "process-crash", Case: b}
 	out, _ := json.Marshal(cf)
-	os.WriteFile(filepath.Join(d, fmt.Sprintf("current.shard%d.json", Shard())), out, 0o644)
+	curMu.Lock()
+	defer curMu.Unlock()
+	if curFile == nil {
+		f, err := os.OpenFile(filepath.Join(d, fmt.Sprintf("current.shard%d.json", Shard())), os.O_CREATE|os.O_RDWR|os.O_TRUNC, 0o644)
+		if err != nil {
+			return
+		}
+		curFile = f
+	}
+	// one pwrite + one ftruncate per case (the file stays open)
+	if _, err := curFile.WriteAt(out, 0); err == nil {
+		curFile.Truncate(int64(len(out)))
+	}
 }
+
+// ClearCurrent forgets the recorded case (call it after a case that cannot have
+// killed the process, when later cases do not record themselves).
+func ClearCurrent() {
+	curMu.Lock()
+	defer curMu.Unlock()
+	if curFile != nil {
+		name := curFile.Name()
+		curFile.Close()
+		curFile = nil
+		os.Remove(name)
+	}
+}
+
+var (
+	curMu   sync.Mutex
+	curFile *os.File
+)
